@@ -169,18 +169,19 @@ class VariableLocationGate(ComposedGate):
         P = np.sum([a * s for a, s in zip(l, self.perms)], 0)
         G = self.gate.get_unitary(a)
         G = np.kron(G, self.I)
-        PG = P @ G
-        GPT = G @ P.T
-        PGPT = P @ GPT
+        PTG = P.T @ G
+        GP = G @ P
+        PTGP = P.T @ GP  # same product as in get_unitary
 
         dG = self.gate.get_grad(a)
         dG = np.kron(dG, self.I)
-        dG = P @ dG @ P.T
+        dG = P.T @ dG @ P
 
         perm_array = np.array([perm for perm in self.perms])
-        dP = perm_array @ GPT + PG @ perm_array.transpose((0, 2, 1)) - 2 * PGPT
+        perm_array_T = perm_array.transpose((0, 2, 1))
+        dP = perm_array_T @ GP + PTG @ perm_array - 2 * PTGP
         dP = np.array([10 * x * y for x, y in zip(l, dP)])
-        U = UnitaryMatrix.closest_to(PGPT, self.radixes)
+        U = UnitaryMatrix.closest_to(PTGP, self.radixes)
         return U, np.concatenate([dG, dP])
 
     def optimize(self, env_matrix: npt.NDArray[np.complex128]) -> list[float]:
